@@ -54,6 +54,8 @@ type StubSpec struct {
 	Stub   string // harness function name
 	Files  []string
 	Method string // for method targets: the method name as it appears at call sites
+	Dir    string // repo-relative package dir whose files are patched (default: the harness package)
+	As     string // replacement text at call sites (default: the stub's name)
 }
 
 type HarnessDecl struct {
@@ -72,6 +74,12 @@ type LoadSpec struct {
 	PkgDir  string   // relative to repo, e.g. "trillian/ctfe"
 	Files   []string // harness source files (absolute paths in /verif/harness/...)
 	Tags    []string
+	Aux     []AuxFile // harness files injected into other packages (stubs with exported knobs)
+}
+
+type AuxFile struct {
+	Path   string `json:"path"`
+	PkgDir string `json:"pkg_dir"`
 }
 
 var reHarnessDirective = regexp.MustCompile(`(?m)^//verif:(\w+)\s*(.*)$`)
@@ -93,6 +101,19 @@ func overlayFor(spec LoadSpec, pkgName string) (map[string][]byte, error) {
 		return nil, err
 	}
 	ov[filepath.Join(dir, "zz_verif_rt.go")] = []byte(strings.Replace(string(rt), "package PKGNAME", "package "+pkgName, 1))
+	for _, a := range spec.Aux {
+		b, err := os.ReadFile(a.Path)
+		if err != nil {
+			return nil, err
+		}
+		an, err := packageNameOf(a.Path)
+		if err != nil {
+			return nil, err
+		}
+		adir := filepath.Join(spec.RepoDir, a.PkgDir)
+		ov[filepath.Join(adir, "zz_verif_"+filepath.Base(a.Path))] = b
+		ov[filepath.Join(adir, "zz_verif_rt.go")] = []byte(strings.Replace(string(rt), "package PKGNAME", "package "+an, 1))
+	}
 	return ov, nil
 }
 
@@ -169,7 +190,36 @@ func LoadProgram(spec LoadSpec) (*Program, error) {
 		P.rtErr = P.opaqErr
 	}
 	// harness declarations and directives
+	type synFile struct {
+		f    *ast.File
+		spkg *ssa.Package
+		dir  string
+	}
+	var synFiles []synFile
 	for _, f := range pkgs[0].Syntax {
+		synFiles = append(synFiles, synFile{f, P.mainPkg, spec.PkgDir})
+	}
+	if len(spec.Aux) > 0 {
+		auxDirs := map[string]string{}
+		for _, a := range spec.Aux {
+			auxDirs[filepath.Join(spec.RepoDir, a.PkgDir)] = a.PkgDir
+		}
+		packages.Visit(pkgs, nil, func(p *packages.Package) {
+			if len(p.GoFiles) == 0 {
+				return
+			}
+			rel, ok := auxDirs[filepath.Dir(p.GoFiles[0])]
+			if !ok || p == pkgs[0] {
+				return
+			}
+			sp := prog.Package(p.Types)
+			for _, f := range p.Syntax {
+				synFiles = append(synFiles, synFile{f, sp, rel})
+			}
+		})
+	}
+	for _, sf := range synFiles {
+		f := sf.f
 		fname := fset.Position(f.Pos()).Filename
 		if !strings.HasPrefix(filepath.Base(fname), "zz_verif_") {
 			continue
@@ -195,21 +245,27 @@ func LoadProgram(spec LoadSpec) (*Program, error) {
 					if len(parts) == 0 {
 						continue
 					}
-					ss := StubSpec{Target: parts[0], Stub: fd.Name.Name}
+					ss := StubSpec{Target: parts[0], Stub: fd.Name.Name, Dir: sf.dir}
 					for _, p := range parts[1:] {
 						if strings.HasPrefix(p, "files=") {
 							ss.Files = strings.Split(strings.TrimPrefix(p, "files="), ",")
+						}
+						if strings.HasPrefix(p, "dir=") {
+							ss.Dir = strings.TrimPrefix(p, "dir=")
+						}
+						if strings.HasPrefix(p, "as=") {
+							ss.As = strings.TrimPrefix(p, "as=")
 						}
 						if strings.HasPrefix(p, "method=") {
 							ss.Method = strings.TrimPrefix(p, "method=")
 						}
 					}
 					P.stubSpec = append(P.stubSpec, ss)
-					sf := P.mainPkg.Func(fd.Name.Name)
-					if sf == nil {
+					stubFn := sf.spkg.Func(fd.Name.Name)
+					if stubFn == nil {
 						return nil, fmt.Errorf("stub function %s not found", fd.Name.Name)
 					}
-					P.stubs[parts[0]] = append(P.stubs[parts[0]], stubEntry{fn: sf, files: ss.Files})
+					P.stubs[parts[0]] = append(P.stubs[parts[0]], stubEntry{fn: stubFn, files: ss.Files})
 				case "opt":
 					for _, p := range strings.Fields(m[2]) {
 						if kv := strings.SplitN(p, "=", 2); len(kv) == 2 {
@@ -235,7 +291,7 @@ func LoadProgram(spec LoadSpec) (*Program, error) {
 						return nil, fmt.Errorf("extern: package %s not in program", tgt[:i])
 					}
 					tf := tp.Func(tgt[i+1:])
-					hf := P.mainPkg.Func(fd.Name.Name)
+					hf := sf.spkg.Func(fd.Name.Name)
 					if tf == nil || hf == nil {
 						return nil, fmt.Errorf("extern: function %s not found", tgt)
 					}
@@ -246,7 +302,7 @@ func LoadProgram(spec LoadSpec) (*Program, error) {
 					}
 				}
 			}
-			if strings.HasPrefix(fd.Name.Name, "Harness_") {
+			if strings.HasPrefix(fd.Name.Name, "Harness_") && sf.spkg == P.mainPkg {
 				fn := P.mainPkg.Func(fd.Name.Name)
 				if fn == nil {
 					return nil, fmt.Errorf("harness %s has no SSA function", fd.Name.Name)
